@@ -45,7 +45,13 @@ def main():
         rc1, o1 = sh(["/venv/bin/python", demo], env=env, cwd="/tmp")
         print(f"demo with patch: exit {rc1} ({o1.strip().splitlines()[-1][:100] if o1.strip() else ''})")
         for p in props:
+            # evidence written while /repo is patched does not describe the unchanged tree: keep the committed one
+            ev = os.path.join(VERIF, "evidence", f"{p}.json")
+            saved = open(ev).read() if os.path.exists(ev) else None
             rc, out = sh([os.path.join(VERIF, "check"), p, "--tier", tier], cwd=VERIF)
+            if saved is not None:
+                with open(ev, "w") as f:
+                    f.write(saved)
             lines = [l for l in out.splitlines() if l.startswith(("VIOLATION", "KNOWN", "CHECK-BROKEN"))]
             print(f"check {p}: exit {rc}  {lines[:3]}")
     finally:
